@@ -2761,7 +2761,11 @@ class LazyStackedTensorDict(TensorDictBase):
                 with open(prefix / "meta.json", "wb") as f:
                     f.write(
                         json.dumps(
-                            {"_type": str(type(self)), "stack_dim": self.stack_dim}
+                            {
+                                "_type": str(type(self)),
+                                "stack_dim": self.stack_dim,
+                                "num_tensordicts": len(self.tensordicts),
+                            }
                         )
                     )
 
@@ -2806,7 +2810,11 @@ class LazyStackedTensorDict(TensorDictBase):
         stack_dim = metadata["stack_dim"]
         if out is not None:
             out = out.unbind(stack_dim)
-        while (prefix / str(i)).exists():
+        # directories left by an earlier, longer stack saved here are not members
+        num_tensordicts = metadata.get("num_tensordicts")
+        while (num_tensordicts is None or i < num_tensordicts) and (
+            prefix / str(i)
+        ).exists():
             tensordicts.append(
                 TensorDict.load_memmap(
                     prefix / str(i),
